@@ -474,7 +474,8 @@ impl Monitor {
             // Frames of a scripted peer are not checked; track Data/payload pairing and its Hello only.
             match decode(data) {
                 Ok(Frame::Data { port, first, last }) => self.send_payload[e] = Some((port, first, last)),
-                Ok(Frame::Hello { version, timeout_ms, chunk_size, recv_buf, connect_queue }) => {
+                // Only the Hello of the handshake counts (a hostile peer may send more of them later).
+                Ok(Frame::Hello { version, timeout_ms, chunk_size, recv_buf, connect_queue }) if self.hello[e].is_none() => {
                     self.hello[e] = Some(HelloCfg { version, timeout_ms, chunk_size, recv_buf, connect_queue });
                 }
                 _ => {}
